@@ -4,6 +4,9 @@ PROP = {
     "required_theorems": [
         "GunYu.Props.C17.update_prefix_safe",
         "GunYu.Props.C17.update_position_before",
+        "GunYu.Props.C17.update_restart_reads_local",
+        "GunYu.Props.C17.update_restart_reads_local_swapped",
+        "GunYu.Props.C17.update_rerun_reads_local",
         "GunYu.Props.C17.migrate_prefix_safe",
         "GunYu.Props.C17.gc_prefix_safe",
         "GunYu.Props.C17.gc_spares_live_id",
@@ -18,6 +21,11 @@ PROP = {
         "c17_gcStaleCp": '{ data, err := checkpoint.GetAllCheckpointHash(cli) if err != nil { return } if len(data)%2 == 1 { return } for i := 0; i < len(data)-1; i += 2 { runId := data[i] cpn := data[i+1] _, exist := runIdMap[runId] total, deleted, err := checkpoint.DelStaleCheckpoint(cli, cpn, runId, config.GetSyncerConfig().Channel.StaleCheckpointDuration, exist) if err != nil { } if !exist && total == deleted { err = checkpoint.DelCheckpointHash(cli, runId) if err == nil { } else { } } } }',
         "c17_gc_frame": ['inputs := config.GetSyncerConfig().Input.Redis.SelNodes(true, config.SelNodeStrategyMaster)', 'inputs = append(inputs, config.GetSyncerConfig().Input.Redis.SelNodes(true, config.SelNodeStrategySlave)...)', 'runIdMap := make(map[string]struct{}, len(inputs)*2)', 'for _, input := range inputs { input.Type = config.RedisTypeStandalone cli, err := client.NewRedis(input) if err != nil { return } id1, id2, err := redis.GetRunIds(cli) if err != nil { cli.Close() return } runIdMap[id1] = struct{}{} runIdMap[id2] = struct{}{} cli.Close() }', 'gcStaleCp := <closure>', 'if config.GetSyncerConfig().Output.Redis.Type == config.RedisTypeCluster { cli, err := client.NewRedis(*config.GetSyncerConfig().Output.Redis) if err != nil { return } gcStaleCp(cli) cli.Close() } else if config.GetSyncerConfig().Output.Redis.Type == config.RedisTypeStandalone { outputs := config.GetSyncerConfig().Output.Redis.SelNodes(true, config.SelNodeStrategyMaster) for _, out := range outputs { cli, err := client.NewRedis(out) if err != nil { return } gcStaleCp(cli) cli.Close() } }'],
         "c17_gc_live_ids": ['runIdMap[id1] = struct{}{}', 'runIdMap[id2] = struct{}{}'],
+        # how a start orders the reported ids before UpdateCheckpoint (Model/Checkpoint.lean startIds / nextStart)
+        "c17_start_order": ['ordered := ids',
+                            'if len(ids) > 1 && cpRunId == ids[1] && ids[1] != ids[0] { ordered = []string{ids[1], ids[0]} }',
+                            'label = ordered[0]',
+                            'err = checkpoint.UpdateCheckpoint(cli, localCheckpoint, ordered)'],
     },
     "harness": [
         {"name": "C17", "pkg": "./pkg/redis/checkpoint/", "test": "TestVerifC17"},
@@ -82,7 +90,7 @@ PROP = {
         "a format switch the code REFUSES (no authoritative seed: root checkpoint only - pinned by the repo test TestResolveBisyncCheckpointNameRejectsPlainCheckpointFallback -, or a journal gap) issues no request and leaves the target as it was; the start keeps failing until the configured mode is reverted - counted as migrate_refused, not a loss of position",
     ],
     "partial": [
-        "update_rerun_reads_local_stmt (Props/C17.lean, a `def … : Prop`, not proved): after a cut at any prefix the REAL next start runs UpdateCheckpoint again to completion and reads under the LOCAL key; proved: the read through the checkpoint hash at every prefix (update_prefix_safe) and that the crash states of a rename are admissible initial states (LocOk); not proved: that every crash state re-establishes all of UpdPre. The harness monitors exactly this on every crash point (restart-after-update-loses-position, next_start_checked; with the real syncer.updateCheckpoint + SetRunId + StartPoint in c17st)",
+        "after a cut of UpdateCheckpoint at ANY prefix, UpdateCheckpoint run again to completion and the read under the LOCAL key is now PROVED for both ways it is run again: the START (update_restart_reads_local / _swapped: ids ordered by the checkpoint hash as syncer.updateCheckpoint does - source fact c17_start_order -, reported in the first run's order or, when the first run was a start that swapped them, in the other order; extra hypothesis only id2 != \"\") and the RETRY of the same call (update_rerun_reads_local, what SetRunId's RetryLinearJitter does). The retry needs one precondition more than update_prefix_safe: for a re-key in place the old id's fields ALONE read the position (Carrier id2). Without it the statement is false in the model AND on the real code (Props/C17.lean exOrph: mapped id's own entry reads 50, a stray <new>_offset = 70 without its run id; hset of the hash fails, the retry reads 50; reproduced with the real UpdateCheckpoint: 70@2 -> 50@2, the real next start keeps 70@2). Such a stray larger offset of an id the hash does not map is outside the reachable states (a <new>_offset field is only written after SetRunId completed), hence a precondition, not a finding",
         "migrate_prefix_safe bounds the ROOT checkpoint of the namespace in DB 0 (X <= X'); the position a bidirectional start really uses (root overridden by latest record / rebuilt frontier) is not in the theorem - it is monitored on every crash point with the real resolveBisyncCheckpointNameWithClient re-run + the real RedisOutput.StartPoint (migrate-next-start-regresses, migrate_next_start_checked); only requests on the checkpoint hash and the two root keys are crash points",
         "gc_spares_newest_of_live_id / gc_passes_exceptNewest are lemmas that restate the definition (kept for the audit, not required); the property's second sentence is gc_spares_live_id (whole gc pass, ANY live id)",
     ],
